@@ -201,6 +201,18 @@ def end_to_end(ctx, n):
                 if p not in ("", "/"):
                     break
             pats.append(p)
+        if t % 5 == 3:
+            # a narrow pattern followed by a broader one whose TEXT the narrow one matches ("backup.?" then "backup.*"):
+            # the set means the union; entries that only the broader one matches are in the tree
+            stem = ctx.rng.choice(["backup.", "a", "x-", "tmp"])
+            kid = {"k": "f", "data": "64", "mode": 0o644, "mtime": 10**18 + 4}
+            tree["c"][stem + "1"] = dict(kid)
+            tree["c"][stem + "old"] = dict(kid)
+            tree["c"][stem + "2021"] = {"k": "d", "mode": 0o755, "mtime": 10**18, "c": {"data": dict(kid)}}
+            tree["c"]["keep-" + stem] = dict(kid)
+            pair = ctx.rng.choice([(stem + "?", stem + "*"), (stem + "[!0-9]", stem + "*"), ("/" + stem + "?", "/" + stem + "*"), (stem + "?", stem + "?*")])
+            pats = list(pair) if ctx.rng.random() < 0.8 else [pair[1], pair[0]]
+            names = tree_names(tree)
         if t % 5 == 4:
             # pattern sets in which EVERY pattern is anchored and one has a character class in a directory component (not the
             # last one): what the class matches is a directory, what is excluded lies one level further down
